@@ -206,3 +206,99 @@ impl Hasher for XorHasher {
   fn finish(&self) -> u64 { self.0 }
   fn write(&mut self, bytes: &[u8]) { let mut i = 0; while i < bytes.len() { self.0 = (self.0 ^ bytes[i] as u64).rotate_left(9); i += 1; } }
 }
+
+// ---------------------------------------------------------------------------------------------------------------------
+// Scripted tasks: ONE task type `P(id)` whose behaviour is given by a harness-global program table. (One type on
+// purpose: two *different* types whose hashes collide make every store lookup compare `TypeId`s, which CBMC's symbolic
+// execution cannot constant-fold; equal hashes only occur for equal `P(id)` here.)
+
+pub const NTASK: usize = 4;
+pub const NINS: usize = 4;
+#[derive(Clone, Copy, PartialEq, Eq, Debug)]
+pub enum Ins {
+  End,
+  /// read Cell(c) with ModeChecker{mode}; acc := mix(acc, value)
+  Read(u8, u8),
+  /// require P(id) with EqualsChecker (kind 0) or AlwaysConsistent (kind 1); acc := mix(acc, output)
+  Req(u8, u8),
+  /// write Cell(c) := Some(acc ^ k) with ModeChecker{mode}
+  Write(u8, u8, u8),
+  /// written_to: store Cell(c) := Some(acc ^ k) through create_writer, then declare written_to with ModeChecker{mode}
+  WrittenTo(u8, u8, u8),
+  /// skip the next instruction when acc is odd
+  SkipIfOdd,
+  /// acc := k
+  Set(u8),
+}
+pub static mut PROG: [[Ins; NINS]; NTASK] = [[Ins::End; NINS]; NTASK];
+pub static mut EXEC_COUNT: [u8; NTASK] = [0; NTASK];
+pub const XLOG_CAP: usize = 8;
+pub static mut XLOG: [u8; XLOG_CAP] = [0xFF; XLOG_CAP];
+pub static mut XLOG_N: usize = 0;
+pub fn exec_reset() { unsafe { EXEC_COUNT = [0; NTASK]; XLOG_N = 0; } }
+pub fn exec_count(id: usize) -> u8 { unsafe { EXEC_COUNT[id] } }
+pub fn exec_total() -> usize { unsafe { XLOG_N } }
+pub fn exec_order(i: usize) -> u8 { unsafe { XLOG[i] } }
+fn mix(acc: u8, v: u8) -> u8 { acc.wrapping_mul(3).wrapping_add(v).wrapping_add(1) }
+
+#[derive(Clone, Copy, PartialEq, Eq, Hash, Debug)] pub struct P(pub u8);
+impl Task for P {
+  type Output = u8;
+  fn execute<C: Context>(&self, c: &mut C) -> u8 {
+    let id = (self.0 as usize) % NTASK;
+    unsafe {
+      EXEC_COUNT[id] += 1;
+      assert!(XLOG_N < XLOG_CAP, "KMODEL-CAPACITY: execution log");
+      let mut k = 0; while k < XLOG_CAP { if k == XLOG_N { XLOG[k] = id as u8; } k += 1; }
+      XLOG_N += 1;
+    }
+    let prog = unsafe { PROG[id] };
+    let mut acc: u8 = 0;
+    let mut pc = 0;
+    while pc < NINS {
+      match prog[pc] {
+        Ins::End => break,
+        Ins::Read(cell, mode) => {
+          let r = c.read(&Cell(cell), ModeChecker { mode }).expect("read");
+          acc = mix(acc, match r.val { Some(v) => v, None => 0xEE });
+        }
+        Ins::Req(t, kind) => {
+          let o = if kind == 0 { c.require(&P(t), crate::task::EqualsChecker) } else { c.require(&P(t), crate::task::AlwaysConsistent) };
+          acc = mix(acc, o);
+        }
+        Ins::Write(cell, mode, k) => {
+          let v = acc ^ k;
+          c.write(&Cell(cell), ModeChecker { mode }, |w| { log_push(K_WRITE_FN, cell, v as u16, mode); *w.slot = Some(v); Ok(()) }).expect("write");
+        }
+        Ins::WrittenTo(cell, mode, k) => {
+          let v = acc ^ k;
+          { let cellr = Cell(cell); let w = c.create_writer(&cellr).expect("writer"); *w.slot = Some(v); }
+          c.written_to(&Cell(cell), ModeChecker { mode }).expect("written_to");
+        }
+        Ins::SkipIfOdd => { if acc & 1 == 1 { pc += 1; } }
+        Ins::Set(k) => { acc = k; }
+      }
+      pc += 1;
+    }
+    acc
+  }
+}
+/// Reference semantics of the scripted programs: what a from-scratch build computes (and writes) for task `id` in cell
+/// state `cells`. Returns the output; `cells` is updated by writes. `depth` bounds recursion.
+pub fn ref_eval(id: usize, cells: &mut [Option<u8>; NCELL], depth: u8) -> u8 {
+  let prog = unsafe { PROG[id % NTASK] };
+  let mut acc: u8 = 0;
+  let mut pc = 0;
+  while pc < NINS {
+    match prog[pc] {
+      Ins::End => break,
+      Ins::Read(cell, _) => { acc = mix(acc, match cells[(cell as usize) % NCELL] { Some(v) => v, None => 0xEE }); }
+      Ins::Req(t, _) => { let o = if depth == 0 { 0 } else { ref_eval(t as usize, cells, depth - 1) }; acc = mix(acc, o); }
+      Ins::Write(cell, _, k) | Ins::WrittenTo(cell, _, k) => { cells[(cell as usize) % NCELL] = Some(acc ^ k); }
+      Ins::SkipIfOdd => { if acc & 1 == 1 { pc += 1; } }
+      Ins::Set(k) => { acc = k; }
+    }
+    pc += 1;
+  }
+  acc
+}
